@@ -63,7 +63,11 @@ def run(tier, seed, replay=None):
             if form == "x/y":
                 q = x / y; num = x.full(); tol = 1e-12
             elif form == "scalar/y":
+                s0 = rng.choice([3.0, -2.0, 0.5, 7])
+                q0 = s0 / y                                  # an earlier quotient with another scalar on the same shape: the next one must not depend on it
                 s = rng.choice([1.0, 2.0, -3.0, 5]); q = s / y; num = torch.full(N, float(s), dtype=cdt); tol = 1e-12
+                res0 = float((q0.full() * y.full() - torch.full(N, float(s0), dtype=cdt)).norm() / math.sqrt(float(np.prod(N))) / abs(s0))
+                if res0 > CONST * (1e-6 if cdt == torch.float32 else 1e-12) + 1e-12: V.fail("scalar/y: an earlier quotient is wrong", dict(desc, rel_residual=res0, scalar=s0))
             else:
                 tol = rng.choice([1e-10, 1e-8, 1e-6, 1e-4])
                 prec = rng.choice([None, "c"])
